@@ -79,7 +79,11 @@ NESTED = ["[[File:x.jpg|thumb|foo {|\n| a || b\n|} bar]]", "[[File:x.jpg|thumb|f
           "[[File:x.jpg|thumb|foo <center><table><tr><td>a</td></tr></table></center>]]",
           "[[File:x.jpg|thumb|<ul><li>x <table><tr><td>a</td></tr></table></li></ul>]]", "[[File:x.jpg|thumb|<blockquote>{|\n| q\n|}</blockquote>]]",
           "{|\n|+ outer\n| {|\n|+ inner\n| c || d\n|}\n| e\n|}", "<ref>{|\n| r1 || r2\n|}</ref>", "* item {|\n| l1 || l2\n|}",
-          "<gallery>\nFile:a.png|cap {|\n| g\n|}\n</gallery>", "; term {|\n| t1\n|}\n: desc"]
+          "<gallery>\nFile:a.png|cap {|\n| g\n|}\n</gallery>", "; term {|\n| t1\n|}\n: desc",
+          # one-cell container tables around a big table (more than 500 characters), around two, around a small one
+          "{|\n|\n{|\n| " + " ".join("cw%d" % i for i in range(120)) + " || x\n|-\n| c || d\n|}\n|}",
+          "{|\n|\n{|\n| " + " ".join("cv%d" % i for i in range(70)) + "\n|}\n{|\n| " + " ".join("cu%d" % i for i in range(70)) + "\n|}\n|}",
+          "{|\n|+ cap\n|\n{|\n| small || table\n|}\n|}"]
 
 
 def attr_lexeme(rng: random.Random):
